@@ -114,7 +114,20 @@ def groups(tier, rng):
     return [Group("accept2/two-listeners-close-error", two, project=project, theorems=THEOREMS),
             Group("accept/outcome-sequences", acc, exhaustive=(tier == "thorough"), project=project, theorems=THEOREMS, monitor=False),
             Group("accept/hanging-connections", hang, project=project, theorems=THEOREMS, monitor=False),
-            Group("sched/delivery-orders", sched_cases(tier, rng), project=project, theorems=THEOREMS, monitor=False)]
+            Group("sched/delivery-orders", sched_cases(tier, rng), project=project, theorems=THEOREMS, monitor=False),
+            # the command loop does not wait for the delivery goroutine (`latestart`): the peer is gone before the delivery starts
+            Group("sched/disconnect-before-delivery-starts", _late(tier, rng), project=_proj_late, theorems=THEOREMS, monitor=False)]
+
+
+def _late(tier, rng):
+    from vlib.props import C19
+    return C19.late_start_cases(tier, rng)
+
+
+def _proj_late(case, ans):
+    tail = ans.split("\t")[-1]
+    flags = ";".join(x for x in tail.split(";") if (x.startswith("LEFT") and x != "LEFT=0") or "HANG" in x)
+    return ("panic-logged" if "PANIC" in ans else "no-panic") + "|" + flags
 
 
 def replay_groups(path):
@@ -128,5 +141,6 @@ def race_cases(tier, rng):
     out = P.data_convs("quick", rng, limits=(0, 1), lmtp_modes=((0, 0), (1, 0), (1, 1)))[:300 if tier == "quick" else 3000]
     out += P.c05_cases("quick", rng)[:300 if tier == "quick" else 3000]
     out += sched_cases(tier, rng)
+    out += _late(tier, rng)
     out += ["accept\tconn,tlshang,conn\tclose,none", "accept\tconn,conn\tshutdown,close", "accept\ttlshang,tlshang\tclose,close"]
     return out
